@@ -13,7 +13,8 @@ for d in sorted(glob.glob(os.path.join(V, "seeded", "*"))):
     name = os.path.basename(d)
     clean = lambda t, n: re.sub(r"\s+", " ", str(t)).replace("|", "/")[:n]
     rows.append((name, clean(m.get("summary", ""), 170), clean(m.get("needs", ""), 130), m.get("caught")))
-r1 = [r for r in rows if "_r2_" not in r[0] and "_r3_" not in r[0]]
+r1 = [r for r in rows if "_r2_" not in r[0] and "_r3_" not in r[0] and "_r4_" not in r[0]]
+r4 = [r for r in rows if "_r4_" in r[0]]
 r2 = [r for r in rows if "_r2_" in r[0]]
 r3 = [r for r in rows if "_r3_" in r[0]]
 s += '''
@@ -27,12 +28,17 @@ object — needs a sequence of calls), COOPERATING SITES (a helper/base class/ta
 RARE INPUT (a narrow class of valid inputs, often about 2^-96 of the space); round 3 asked for one change of each of:
 ERROR PATH (which inputs are refused and with which exception, or a failed call leaving something behind), ARGUMENT FORM
 (the same value handed over as another accepted type: string/int/tuple/object, list/tuple/generator/iterator, str
-subclass, IPRange used as a sequence), PROTOCOL (pickle, copy, hash/eq, iteration, slicing, bool/len).  Every change listed was confirmed by me in a
+subclass, IPRange used as a sequence), PROTOCOL (pickle, copy, hash/eq, iteration, slicing, bool/len); round 4 asked for one
+change of each of: OPTIMISATION / FAST PATH (early exits, closed forms and float `log2` replacing exact loops, memos keyed on too
+little or not invalidated, skipped normalisation), MODERNISATION / REFACTORING (f-string padding, truthiness replacing `is None`,
+`is` vs `==`, `range` loops with an off-by-one, reliance on dict order, helpers shared by callers they do not fit), DATA / TABLE /
+CONSTANT / PATTERN (one wrong row of a lookup table, one character of an alphabet, a regex that lost its anchor, a limit off by
+one, a narrowed block).  Every change listed was confirmed by me in a
 scratch worktree (`tools/eval_seeded.sh`: suite unchanged at 268 passed / 2 pre-existing failures; demo exits 0 on the
 untouched tree and 1 with the change) and the property's quick check was run against the changed tree.  The patch, the
 demo and `meta.json` (what it needs to manifest, what was run, the tail of the check output) are kept under `seeded/<name>/`.
 
-**Result: all %d changes (%d round 1, %d round 2, %d round 3) are caught by the quick tier of the property's own check.**  That was
+**Result: all %d changes (%d round 1, %d round 2, %d round 3, %d round 4) are caught by the quick tier of the property's own check.**  That was
 not so at first; the misses drove these additions:
 
 * round 1, 3 of 57 missed: `C02_2` (memoised `netmask` not invalidated by the `prefixlen` setter) → setter histories read
@@ -59,10 +65,16 @@ not so at first; the misses drove these additions:
   `str` subclass; `C17_r3_2` (bounds of `iprange_to_globs` parsed with `IPNetwork()`, which refuses the integer form) → the adapter demands the same globs from
   string bounds, integer bounds and IPAddress bounds.  The same idea was then applied where no seed asked for it (CIDR-string
   and IPAddress arguments of `cidr_partition`/`cidr_exclude` in C09).
+* round 4, 1 of 60 missed at first: `C05_r4_3` (netmask and hostmask lookup tables merged into one in which the hostmask rows
+  win, so only the all-ones and all-zeros mask texts are read wrongly; the same change seeded for C13 was caught there by the
+  mask-string form added in round 2) → `cidr_merge` items and IPSet elements are now also written as `address/netmask` and
+  `address/hostmask` text.  The other 59 — among them three independent float-`log2` rewrites, four stale memos, the BASE_85
+  alphabet with one wrong character, a MAC pattern without its `$`, `_sys_maxint` lowered to 2^31-1, an IANA multicast shortcut
+  that ignores alignment — were reported at once, most of them with a concrete failing input.
 
 | seeded change | what was changed | needs, to manifest | caught |
 |---|---|---|---|
-''' % (len(rows), len(r1), len(r2), len(r3))
+''' % (len(rows), len(r1), len(r2), len(r3), len(r4))
 for r in rows:
     s += "| `%s` | %s | %s | %s |\n" % (r[0], r[1], r[2], "yes" if r[3] else "NO")
 
